@@ -180,6 +180,8 @@ func checkC03(cx *Ctx, r *Report) {
 	} else {
 		r.Fail("R-VFG", "makeSuccessfulResponse:one-now", "", "anchor not found")
 	}
+	// RelayState (and the other values) survive the redirect transport: encoded exactly once with url.QueryEscape
+	cx.checkBuildRedirectQuery(r)
 	cx.checkIDs(r, vf, 2)
 	_ = fx
 	r.Min("R-VFG", 35)
@@ -217,7 +219,7 @@ func (cx *Ctx) checkGetSAML(r *Report) {
 			}
 			if inLoop {
 				nCustom++
-				r.Check(len(own) == 0, "R-GUARD", "GetSAML:loop-append@"+w.FuncKey(g), w.InstrPos(call), "every element of the loop is appended, whatever its values", "an element is appended only under "+strings.Join(own, " & ")+": attributes storage set can be dropped from the assertion")
+				r.Check(!iterationCanSkip(fx.info(g), call.Block()), "R-GUARD", "GetSAML:loop-append@"+w.FuncKey(g), w.InstrPos(call), "every element of the loop is appended, whatever its values", "an iteration can skip the append (guards at the append: "+strings.Join(own, " & ")+"): attributes storage set can be dropped from the assertion")
 				continue
 			}
 			if g != fn {
